@@ -1664,6 +1664,292 @@ def probe_subclass_cachevalues(ctx):
                         {'probe': 'subclass_cachevalues', 'cache': True, 'mode': 'B', 'ops': []})
 
 
+
+# ---------------------------------------------------------------- transactions / explicit connections
+# Instances bound to a Transaction (get/create with connection=tx) next to instances of the class's own connection,
+# on a file-backed database (the transaction has a connection of its own).  Oracle: after every step every held
+# instance shows, for every column, the row AS SEEN BY ITS OWN CONNECTION (raw SELECT through that connection).
+# The parent connection's cache culls every few look-ups (CacheSet(cullFrequency=2)), so held instances sit in the
+# weak table as often as in the strong one.
+_txenv = {}
+TXCLS = [('T', ['x', 'y'], 't_txt'), ('DN', ['fkID', 'x'], 't_txdn'), ('DC', ['fkID', 'x'], 't_txdc')]
+TXDB = [['x', 'y'], ['fk_id', 'x'], ['fk_id', 'x']]
+
+
+def tx_env():
+    if _txenv:
+        return _txenv
+    import atexit
+    import shutil
+    import tempfile
+    sqlo.setup()
+    from sqlobject import SQLObject, IntCol, ForeignKey
+    from sqlobject.cache import CacheSet
+    d = tempfile.mkdtemp(prefix='c05tx', dir='/dev/shm' if os.path.isdir('/dev/shm') else None)
+    atexit.register(shutil.rmtree, d, True)
+    conn = sqlo.file_conn(os.path.join(d, 'c05tx.db'), timeout=0.05)
+    conn.cache = CacheSet(cache=True, cullFrequency=2)
+    T = type(sqlo.uniq('C05TxT'), (SQLObject,), {'_connection': conn, 'x': IntCol(default=None), 'y': IntCol(default=None),
+                                                 'sqlmeta': type('sqlmeta', (), {'table': 't_txt'})})
+    DN = type(sqlo.uniq('C05TxDN'), (SQLObject,), {'_connection': conn, 'fk': ForeignKey(T.__name__, cascade='null', default=None),
+                                                   'x': IntCol(default=None), 'sqlmeta': type('sqlmeta', (), {'table': 't_txdn'})})
+    DC = type(sqlo.uniq('C05TxDC'), (SQLObject,), {'_connection': conn, 'fk': ForeignKey(T.__name__, cascade=True, default=None),
+                                                   'x': IntCol(default=None), 'sqlmeta': type('sqlmeta', (), {'table': 't_txdc'})})
+    for c in (T, DN, DC):
+        c.createTable()
+    _txenv.update(conn=conn, classes=[T, DN, DC], CacheSet=CacheSet)
+    return _txenv
+
+
+class TxRun(object):
+    """ops: ['create', who, k, [v0, v1]] ['get', who, k, id] ['set', i, c, v] ['destroy', i] ['lookups', who, k, n]
+    ['commit'] ['rollback']      who: 'p' the class's own connection, 't' the transaction;  i: index into the held list"""
+
+    def __init__(self):
+        e = tx_env()
+        self.conn = e['conn']
+        self.classes = e['classes']
+        for (_, _, t) in TXCLS:
+            self.conn.query('DELETE FROM %s' % t)
+        self.conn.query('DELETE FROM sqlite_sequence')
+        self.conn.cache = e['CacheSet'](cache=True, cullFrequency=2)
+        self.tx = self.conn.transaction()
+        self.tx_dirty = False
+        self.resync = set()
+        self.held = []      # [obj, who, k, id] or None
+        self.fails = []
+        self.executed = []
+
+    def close(self):
+        try:
+            self.tx.rollback()
+        except Exception:
+            pass
+
+    def view(self, who):
+        return self.tx if who == 't' else self.conn
+
+    def rawrow(self, who, k, rid):
+        r = self.view(who).queryOne('SELECT %s FROM %s WHERE id = %d' % (', '.join(TXDB[k]), TXCLS[k][2], rid))
+        return None if r is None else tuple(r)
+
+    def hold(self, obj, who, k):
+        for i, hd in enumerate(self.held):
+            if hd is not None and hd[0] is obj:
+                return i
+        for i, hd in enumerate(self.held):
+            # (open C04 finding: expire() - also the one commit() does - evicts the instance; the older handle goes)
+            if hd is not None and hd[1:] == [who, k, obj.id]:
+                self.held[i] = None
+        self.held.append([obj, who, k, obj.id])
+        return len(self.held) - 1
+
+    def in_cache(self, hd):
+        """is the instance still registered (strong or weak table) in the cache of its connection?  (looked up in the
+        tables themselves, not through tryGet)"""
+        obj, who, k, rid = hd
+        f = self.view(who).cache.caches.get(type(obj).__name__)
+        if f is None:
+            return False
+        if getattr(f, 'cache', {}).get(rid) is obj if f.doCache else False:
+            return True
+        w = f.expiredCache.get(rid)
+        return w is not None and w() is obj
+
+    def other_side_wrote(self, who, ks):
+        """a write through one connection is raw SQL for the instances of the OTHER one (until commit() expires the
+        parent's): the application lets go of those"""
+        other = 't' if who == 'p' else None
+        for i, hd in enumerate(self.held):
+            if hd is not None and hd[1] == other and hd[2] in ks:
+                self.held[i] = None
+        if other:
+            self.resync.update(ks)     # the transaction's cached instances of these classes need a sync() when met again
+
+    def apply(self, op):
+        name = op[0]
+        try:
+            r = getattr(self, 'do_' + name)(*op[1:])
+        except Exception as ex:
+            r = 'raised %s' % sqlo.exc_name(ex)
+            self.fails.append(('tx-op-raised', '-', '%r raised %s' % (op, sqlo.exc_name(ex))))
+        if r is False:
+            return False
+        self.executed.append(op)
+        self.check('after %r' % (op,))
+        # (open C04 finding: expire() - also the one commit()/rollback() do - drops the instance from the cache; the
+        #  application re-fetches such instances)
+        for i, hd in enumerate(self.held):
+            if hd is not None and not self.in_cache(hd):
+                self.held[i] = None
+        return True
+
+    def do_create(self, who, k, vals):
+        if who == 'p' and self.tx_dirty:
+            return False
+        kw = dict(zip(TXCLS[k][1], vals))
+        if who == 't':
+            kw['connection'] = self.tx
+            self.tx_dirty = True
+        self.hold(self.classes[k](**kw), who, k)
+
+    def do_get(self, who, k, rid):
+        if self.rawrow(who, k, rid) is None:
+            return False
+        obj = self.classes[k].get(rid, connection=self.tx) if who == 't' else self.classes[k].get(rid)
+        if who == 't' and k in self.resync:
+            obj.sync()
+        self.hold(obj, who, k)
+
+    def do_lookups(self, who, k, n):
+        for _ in range(n):
+            for rid in (1, 2, 3):
+                if self.rawrow(who, k, rid) is not None:
+                    if who == 't':
+                        self.classes[k].get(rid, connection=self.tx)
+                    else:
+                        self.classes[k].get(rid)
+
+    def do_set(self, i, c, v):
+        if i >= len(self.held) or self.held[i] is None:
+            return False
+        obj, who, k, rid = self.held[i]
+        if who == 'p' and self.tx_dirty:
+            return False
+        if self.rawrow(who, k, rid) is None:
+            return False
+        if who == 't':
+            self.tx_dirty = True
+        self.other_side_wrote(who, [k])
+        setattr(obj, TXCLS[k][1][c], v)
+
+    def do_destroy(self, i):
+        if i >= len(self.held) or self.held[i] is None:
+            return False
+        obj, who, k, rid = self.held[i]
+        if who == 'p' and self.tx_dirty:
+            return False
+        if self.rawrow(who, k, rid) is None:
+            return False
+        if who == 't':
+            self.tx_dirty = True
+        self.other_side_wrote(who, [0, 1, 2] if k == 0 else [k])
+        obj.destroySelf()
+        self.held[i] = None
+
+    def do_commit(self):
+        self.tx.commit()
+        self.tx_dirty = False
+
+    def do_rollback(self):
+        self.resync = set()
+        self.tx.rollback()
+        self.held = [None if (hd is None or hd[1] == 't') else hd for hd in self.held]
+        self.tx = self.conn.transaction()
+        self.tx_dirty = False
+
+    def check(self, where):
+        for i, hd in enumerate(self.held):
+            if hd is None:
+                continue
+            obj, who, k, rid = hd
+            row = self.rawrow(who, k, rid)
+            if row is None:
+                self.held[i] = None      # the row is gone for that connection (cascade, destroy through another instance)
+                continue
+            try:
+                shown = tuple(getattr(obj, a) for a in TXCLS[k][1])
+            except Exception as ex:
+                shown = 'raised %s' % sqlo.exc_name(ex)
+            if shown != row:
+                self.fails.append(('tx-stale-read', TXCLS[k][0] + ('@tx' if who == 't' else '@conn'),
+                                   '%s: instance %d (%s row %d, held on the %s) shows %r, its connection sees the row %r'
+                                   % (where, i, TXCLS[k][0], rid, 'transaction' if who == 't' else "class's connection", shown, row)))
+                self.held[i] = None
+
+
+def tx_run(ops):
+    r = TxRun()
+    try:
+        for op in ops:
+            r.apply(op)
+    finally:
+        r.close()
+    return r
+
+
+def tx_shrink(ops, kind, clsname):
+    def bad(cand):
+        return any(f[0] == kind and f[1] == clsname for f in tx_run(cand).fails)
+    cur = list(ops)
+    i = len(cur) - 1
+    budget = 60
+    while i >= 0 and budget > 0 and len(cur) > 1:
+        cand = cur[:i] + cur[i + 1:]
+        budget -= 1
+        if bad(cand):
+            cur = cand
+        i -= 1
+    return cur
+
+
+TX_CORPUS = [
+    # a referenced row destroyed THROUGH THE TRANSACTION: its dependents held on the transaction follow (NULL / gone)
+    [['create', 'p', 0, [1, 1]], ['create', 'p', 1, [1, 5]], ['create', 'p', 2, [1, 6]], ['get', 't', 0, 1], ['get', 't', 1, 1], ['get', 't', 2, 1],
+     ['get', 'p', 1, 1], ['destroy', 3], ['commit'], ['get', 'p', 1, 1]],
+    # a held instance of the class's connection, moved to the weak table by culls, then its row is updated through a
+    # transaction: commit() must still find and expire it; rollback() must find the transaction's own culled instances
+    [['create', 'p', 0, [1, 1]], ['create', 'p', 0, [2, 2]], ['create', 'p', 0, [3, 3]], ['lookups', 'p', 0, 3], ['get', 't', 0, 1], ['set', 3, 0, 9],
+     ['commit'], ['lookups', 'p', 0, 2], ['get', 't', 0, 2], ['set', 4, 1, 7], ['lookups', 't', 0, 3], ['commit']],
+    [['create', 'p', 0, [1, 1]], ['create', 'p', 0, [2, 2]], ['get', 't', 0, 1], ['get', 't', 0, 2], ['lookups', 't', 0, 3], ['set', 2, 0, 5], ['set', 3, 0, 6],
+     ['rollback'], ['get', 't', 0, 1], ['set', 2, 1, 4], ['commit']],
+]
+
+
+def tx_gen(rng):
+    ops = [['create', 'p', 0, [rng.randint(0, 9), rng.randint(0, 9)]] for _ in range(rng.randint(1, 3))]
+    for _ in range(rng.randint(0, 2)):
+        ops.append(['create', rng.choice('pt'), rng.choice([1, 2]), [rng.choice([1, 1, 2, None]), rng.randint(0, 9)]])
+    for _ in range(rng.randint(4, 12)):
+        r = rng.random()
+        if r < 0.25:
+            ops.append(['get', rng.choice('ptt'), rng.choice([0, 0, 1, 2]), rng.randint(1, 3)])
+        elif r < 0.5:
+            c = rng.randint(0, 1)
+            ops.append(['set', rng.randint(0, 7), c, rng.randint(0, 9)])
+        elif r < 0.62:
+            ops.append(['lookups', rng.choice('pt'), rng.choice([0, 0, 1]), rng.randint(1, 3)])
+        elif r < 0.72:
+            ops.append(['destroy', rng.randint(0, 7)])
+        elif r < 0.8:
+            ops.append(['create', rng.choice('pt'), rng.choice([0, 1, 2]), [rng.choice([1, 2, None]), rng.randint(0, 9)]])
+        elif r < 0.93:
+            ops.append(['commit'])
+        else:
+            ops.append(['rollback'])
+    ops.append(['commit'])
+    return ops
+
+
+def tx_scenarios(ctx):
+    rng = ctx.rng
+    n = ctx.budget(150, 3000)
+    seen = set()
+    for idx in range(len(TX_CORPUS) + n):
+        ops = TX_CORPUS[idx] if idx < len(TX_CORPUS) else tx_gen(rng)
+        r = tx_run(ops)
+        ctx.case(('tx',) + tuple(json.dumps(o) for o in r.executed), sample={'transaction scenario': r.executed[:12]}, kind='transaction scenario')
+        for kind, clsname, what in r.fails:
+            if (kind, clsname) in seen or len(ctx.oracle_fails) >= 40:
+                continue
+            seen.add((kind, clsname))
+            small = tx_shrink(r.executed, kind, clsname)
+            rr = tx_run(small)
+            w = [f for f in rr.fails if f[0] == kind and f[1] == clsname]
+            ctx.oracle_fail('C05:%s:%s:%s' % (kind, clsname, ','.join(o[0] for o in small)), (w[0][2] if w else what),
+                            {'probe': 'tx', 'cache': True, 'mode': 'B', 'ops': small, 'kind': kind, 'cls': clsname})
+
+
 PROBES = {'like_named': probe_like_named, 'lookahead': probe_lookahead, 'subclass_cachevalues': probe_subclass_cachevalues}
 
 
@@ -1673,11 +1959,16 @@ def run(ctx):
     probe_like_named(ctx)
     probe_lookahead(ctx)
     probe_subclass_cachevalues(ctx)
+    tx_scenarios(ctx)
     n = ctx.budget(2500, 15000)
     drive(ctx, 'C05', W_C05, n, 30 if ctx.tier == 'quick' and not ctx.deep else 60)
 
 
 def replay(case):
+    if case.get('probe') == 'tx':
+        r = tx_run([list(o) for o in case['ops']])
+        bad = [f for f in r.fails if f[0] == case.get('kind', f[0])]
+        return (not bad), 'transaction scenario: %s\n%s' % (json.dumps(case['ops']), '\n'.join('%s [%s]: %s' % f for f in r.fails) or 'no oracle failure')
     if case.get('probe') in PROBES:
         class _C(object):
             fails = []
